@@ -56,6 +56,7 @@ func genCorr(t *rapid.T, v6 bool, label string) aggh.Corr {
 func genCase(t *rapid.T) aggh.XCase {
 	to := [][2]int{{10*3600 + 30*60 + 20, 3*3600 + 30*60 + 40}, {2*3600 + 30*60 + 20, 5*3600 + 30*60 + 40}}[rapid.IntRange(0, 1).Draw(t, "to")]
 	c := aggh.XCase{ActiveSec: to[0], InactiveSec: to[1], LayoutS: rapid.IntRange(0, 3).Draw(t, "layout_s"), LayoutD: rapid.IntRange(0, 3).Draw(t, "layout_d")}
+	c.NoAggregation = rapid.IntRange(0, 5).Draw(t, "no_aggregation") == 0
 	if mr := rapid.SampledFrom([]int{-1, -1, 0, 1, 2, 3}).Draw(t, "max_retries"); mr >= 0 {
 		c.MaxRetries = &mr
 	}
@@ -99,7 +100,7 @@ func TestC07(t *testing.T) {
 		st := &aggh.XStats{}
 		f := aggh.RunX(c, st)
 		var cl []string
-		for k, b := range map[string]bool{"correlated_flow_exported": st.Correlated, "retry_round_then_peer": st.RetryThenPeer, "uncorrelated_dropped": st.DroppedUncorrelated, "both_arrival_orders": st.BothOrders, "failing_callback": st.FailingCallback, "nodes_use_different_element_order": c.LayoutS != c.LayoutD, "correlating_record_refused": st.IncompleteCorrelating, "max_retries_setting_changed": c.MaxRetries != nil && *c.MaxRetries != 2} {
+		for k, b := range map[string]bool{"correlated_flow_exported": st.Correlated, "retry_round_then_peer": st.RetryThenPeer, "uncorrelated_dropped": st.DroppedUncorrelated, "both_arrival_orders": st.BothOrders, "failing_callback": st.FailingCallback, "nodes_use_different_element_order": c.LayoutS != c.LayoutD, "correlating_record_refused": st.IncompleteCorrelating, "max_retries_setting_changed": c.MaxRetries != nil && *c.MaxRetries != 2, "process_without_aggregate_elements": c.NoAggregation} {
 			if b {
 				cl = append(cl, k)
 			}
